@@ -253,11 +253,18 @@ package cpumem
 //@   assert[C33.planner-args] before call GetCPUPlans#1: arg0 == nodeResourceInfo && arg1 == originResource.CPUMap && arg2 == p.config.Scheduler.ShareBase
 //@        && arg3 == p.config.Scheduler.MaxShare && arg4 == newReq && nodeResourceInfo == res(Plugin.doGetNodeResourceInfo, 0)
 //@   # ... after the workload's own cores, memory and NUMA memory have been returned to the pool
-//@   assert[C33.putback] before call GetCPUPlans#1:
+//@   assert[C33.putback,C04] before call GetCPUPlans#1:
 //@        (forall c string :: nodeResourceInfo.Usage.CPUMap[c] == atcall(Plugin.doGetNodeResourceInfo, res(Plugin.doGetNodeResourceInfo, 0).Usage.CPUMap[c]) - originResource.CPUMap[c])
 //@        && (forall m string :: nodeResourceInfo.Usage.NUMAMemory[m] == atcall(Plugin.doGetNodeResourceInfo, res(Plugin.doGetNodeResourceInfo, 0).Usage.NUMAMemory[m]) - originResource.NUMAMemory[m])
 //@        && nodeResourceInfo.Usage.Memory == atcall(Plugin.doGetNodeResourceInfo, res(Plugin.doGetNodeResourceInfo, 0).Usage.Memory) - originResource.MemoryRequest
 //@        && nodeResourceInfo.Capacity == atcall(Plugin.doGetNodeResourceInfo, res(Plugin.doGetNodeResourceInfo, 0).Capacity)
+//@   # what is recorded for the workload (and handed to the engine) is the request that was planned: amounts, limits and,
+//@   # for a NUMA-local plan, that NUMA node charged with the whole memory request
+//@   assert[C04.realloc-recorded,C05,C33] before call Decode#1: newResource.CPURequest == newReq.CPURequest && newResource.CPULimit == newReq.CPULimit
+//@        && newResource.MemoryRequest == newReq.MemRequest && newResource.MemoryLimit == newReq.MemLimit
+//@   assert[C04.realloc-engine,C05,C33] before call Decode#1: engineParams.CPU == newReq.CPULimit && engineParams.Memory == newReq.MemLimit
+//@   assert[C04.realloc-numa,C33] before call Decode#1: numaNodeID != "" ==> newResource.NUMAMemory[numaNodeID] == newReq.MemRequest
+//@   assert[C04.realloc-nonuma,C33] before call Decode#1: numaNodeID == "" ==> isnil(newResource.NUMAMemory)
 //@   # the first plan is the one taken, for the engine parameters as well as for the recorded resources
 //@   assert[C33.first-plan] before call Decode#1: req.CPUBind ==> let plans == res(schedule.GetCPUPlans) :: len(plans) >= 1
 //@        && cpuMap == plans[0].CPUMap && numaNodeID == plans[0].NUMANode && engineParams.CPUMap == cpuMap && engineParams.NUMANode == numaNodeID
